@@ -173,6 +173,24 @@ class SiteCheck(PropertyCheck):
                         diff['object'] = {'full': ob['full'], 'impl': [ob['url'], ob['visible']],
                                           'model': [txt(mob[0]), bool(mob[1]), txt(mob[2])]}
                         break
+                # cross references rendered by the annotation linker (class signature incl. generic arguments, function
+                # signatures, attribute types): the model's taglink with ctx = the page they are rendered on
+                murls = [(txt(mob[0]), bool(mob[1])) for mob in m[3]]
+                for page, info in cr['pages'].items():
+                    allowed = None
+                    for ref in info.get('refs', []):
+                        if ref[2] in ('class_signature', 'member_header') and 'internal-link' in ref[3].split():
+                            if allowed is None:
+                                allowed = set()
+                                for u, vis in murls:
+                                    if vis:
+                                        allowed.add(u[len(page):] if u.startswith(page + '#') else u)
+                            self.count('annotation_links_compared')
+                            if ref[1] not in allowed:
+                                diff = diff or {}
+                                diff.setdefault('annotation_links', []).append(
+                                    {'page': page, 'zone': ref[2], 'href': ref[1],
+                                     'why': 'not taglink(o, page_url=this page) of any visible object of the model'})
                 if diff and len([v for v in out if v.kind == 'correspondence']) < 5:
                     out.append(Violation('correspondence', 'Model.Site and the files pydoctor wrote disagree: '
                                          + json.dumps(diff)[:600], case=compact_case(c), expected='model', observed=diff))
